@@ -177,7 +177,7 @@ fn dump_pair(conn: i64, ops: &mut Vec<Vec<Tok>>, used: &[Vec<u8>], db0: bool) {
     ops.push(cmd_op(conn, &[b"DBSIZE"]));
 }
 
-const SIDS: &[&[u8]] = &[b"1-1", b"2-0", b"2-5", b"5-3", b"0-1", b"3", b"abc", b"18446744073709551615-1", b"7-18446744073709551615", b"0-0", b"9-9", b"-", b"+", b"4-x"];
+const SIDS: &[&[u8]] = &[b"1-1", b"2-0", b"2-5", b"5-3", b"0-1", b"abc", b"18446744073709551615-1", b"7-18446744073709551615", b"0-0", b"9-9"];
 const SCOUNTS: &[&[u8]] = &[b"0", b"1", b"2", b"10", b"+2", b"x", b"-1", b"18446744073709551615"];
 /// stream commands of the executor's catalogue (explicit IDs only: `XADD key *` needs the clock oracle)
 fn stream_cmd(r: &mut Rng) -> Vec<Vec<u8>> {
@@ -188,7 +188,11 @@ fn stream_cmd(r: &mut Rng) -> Vec<Vec<u8>> {
         0..=4 => vec![v(b"XADD"), k, id(r), v(*r.pick(&[&b"f"[..], b"g", b""])), v(*r.pick(c01::VALUES))],
         5 => match r.below(4) { 0 => vec![v(b"XADD"), k, id(r)], 1 => vec![v(b"XADD"), k, id(r), v(b"f")], 2 => vec![v(b"XADD"), k, v(b"MAXLEN"), v(b"2"), id(r), v(b"f"), v(b"v")], _ => vec![v(b"xadd"), k, id(r), v(b"f"), v(b"v"), v(b"g")] },
         6 => vec![v(b"XLEN"), k],
-        7 | 8 => { let mut c = vec![v(if r.chance(1, 2) { b"XRANGE" } else { b"XREVRANGE" }), k, id(r), id(r)];
+        // range bounds: "-" / "+" only where they belong; odd ID texts are C15/C16 ground (Streams.v is being reworked there)
+        7 | 8 => { let rev = r.chance(1, 2);
+                   let wf = |r: &mut Rng| v(*r.pick(&[&b"1-1"[..], b"2-0", b"2-5", b"5-3", b"0-1", b"9-9", b"0-0", b"18446744073709551615-1", b"abc"]));
+                   let lo = if r.chance(1, 3) { v(b"-") } else { wf(r) }; let hi = if r.chance(1, 3) { v(b"+") } else { wf(r) };
+                   let mut c = if rev { vec![v(b"XREVRANGE"), k, hi, lo] } else { vec![v(b"XRANGE"), k, lo, hi] };
                    match r.below(6) { 0 | 1 => { c.push(v(b"COUNT")); c.push(v(*r.pick(SCOUNTS))); } 2 => c.push(v(b"COUNT")), 3 => { c.push(v(b"count")); c.push(v(b"1")); c.push(v(b"extra")); } _ => {} } c }
         9 => vec![v(b"XRANGE"), k, v(b"-"), v(b"+")],
         // ID text of XDEL: well-formed IDs and plain garbage only (the parsing of odd ID texts is C15/C16 ground)
@@ -425,9 +429,12 @@ fn lx_pair(r: &mut Rng, ops: &mut Vec<Vec<Tok>>, c: i64, cmd: &[&[u8]]) {
     let sorted = cmd[0] == b"KEYS";
     let mut body = vec![St::Call(pcall, args)];
     if sorted { body.push(St::Sort(1)); }
-    ops.push(note_op(&[b"twin", if pcall { b"pcall" } else { b"call" }, if sorted { b"sorted" } else { b"plain" }]));
-    ops.push(cmd_op(c, cmd));
-    ops.push(eval_op(c, &print_script(&Script { body, ret: Some(E::Res(1)) }, r.chance(1, 2)), &[], &[]));
+    // the script goes first half of the time: a direct keyspace command sent before it would already
+    // have purged the keys that are past their deadline
+    let script_first = r.chance(1, 2);
+    ops.push(note_op(&[if script_first { b"twinr" } else { b"twin" }, if pcall { b"pcall" } else { b"call" }, if sorted { b"sorted" } else { b"plain" }]));
+    let ev = eval_op(c, &print_script(&Script { body, ret: Some(E::Res(1)) }, r.chance(1, 2)), &[], &[]);
+    if script_first { ops.push(ev); ops.push(cmd_op(c, cmd)); } else { ops.push(cmd_op(c, cmd)); ops.push(ev); }
 }
 fn lazy_case(r: &mut Rng, id: usize) -> Case {
     let db: i64 = *r.pick(&[0i64, 1, 15]);
@@ -528,7 +535,10 @@ pub fn judge(c: &Case, outs: &[Vec<Tok>]) -> Vec<String> {
         let op = &c.ops[k];
         if tok_bytes(&op[0]) == b"NOTE" && op.len() >= 2 && k + 2 < c.ops.len().min(outs.len()) {
             let kind = tok_bytes(&op[1]).to_vec();
-            if let (Some(d), Some(s)) = (dec_reply(&outs[k + 1]), dec_reply(&outs[k + 2])) {
+            let rev = kind == b"twinr";
+            let (di, si) = if rev { (k + 2, k + 1) } else { (k + 1, k + 2) };
+            let kind = if rev { b"twin".to_vec() } else { kind };
+            if let (Some(d), Some(s)) = (dec_reply(&outs[di]), dec_reply(&outs[si])) {
                 if kind == b"twin" {
                     let pcall = tok_bytes(&op[2]) == b"pcall";
                     let sorted = op.len() > 3 && tok_bytes(&op[3]) == b"sorted";
